@@ -13,6 +13,7 @@ CONSTANTS
   Parts = {TRUE, FALSE}
   MaxCancel = 3
   MaxFault = 2
+  Zeros = TRUE
   Dev = {}
   Record = TRUE
 INVARIANTS
